@@ -942,6 +942,33 @@ def rule_loop_retry(ctx):
                                 r.violate(c_, 'retry-without-housekeeping', 'housekeeper-arg', '%s calls the write scheduler with `%s` instead of the cache\'s housekeeper: with a full write queue '
                                           'nobody runs the maintenance and the retry loop spins forever' % (c_, fmt(a_)[:50]), where=ctx.where(c_, e[3]),
                                           expected='self.base.housekeeper.as_ref()')
+        # ... and the scheduler itself keeps using it: on EVERY trip of the retry loop the housekeeping call receives the scheduler's own housekeeper
+        # parameter, never a local that an earlier trip has overwritten ("another thread is syncing, stop asking": that thread may return without
+        # draining what is queued now, and nobody is left to run the maintenance)
+        if hk_params:
+            hk_fns2 = {x for x in prog.bodies if x != b.nid and any(y.endswith('housekeeper::Housekeeper::try_sync') for y in prog.reachable_from([x]))} | \
+                {x for x in prog.bodies if x.endswith('housekeeper::Housekeeper::try_sync')}
+            try:
+                trips = ctx.symex(inline_depth=0, loop_visits=4, emit_cut=True, inline_pred=lambda n_, bb, d: False).run(b.nid)
+            except Exception:
+                trips = None
+            if trips is None:
+                raise CheckFailure('LOOP-retry: the write scheduler %s could not be explored for three trips of its retry loop' % b.nid)
+            ncalls, bad_call = 0, None
+            for p in trips:
+                for e in p.events:
+                    if e[0] == 'call' and e[1] in hk_fns2:
+                        ncalls += 1
+                        if not any(isinstance(x, tuple) and len(x) == 2 and x[0] == 'param' and x[1] in hk_params for a_ in e[2] for x in subterms(a_)):
+                            bad_call = (e[1], e[3], [fmt(a_)[:40] for a_ in e[2]])
+            r.instance(function=b.nid, clause='housekeeper-kept', housekeeping_calls_on_explored_trips=ncalls, every_call_gets_the_parameter=bad_call is None)
+            if ncalls < 2 and bad_call is None:
+                raise CheckFailure('LOOP-retry: fewer than two housekeeping calls seen on the explored trips of %s -- housekeeper-kept would pass vacuously' % b.nid)
+            if bad_call:
+                r.violate(b.nid, 'retry-without-housekeeping', 'housekeeper-dropped-in-loop', 'a trip of the write-retry loop in %s calls %s with %s -- not the scheduler\'s housekeeper '
+                          'parameter: once the loop has replaced it (e.g. by None after a failed try_sync) a full queue is never drained by this writer, and if the '
+                          'thread that was syncing returns without another run the insert never returns' % (b.nid, bad_call[0].split('::')[-1], bad_call[2]),
+                          where=ctx.where(b.nid, bad_call[1]), expected='apply_reads_writes_if_needed(inner, ch, now, housekeeper) with the unmodified parameter on every trip')
         # a write op is never given up: every normal return of the scheduler has seen its try_send succeed (Ok), or reports the error
         from .symex import PathLimit as _PL, RESULT as _RES
         try:
